@@ -93,6 +93,9 @@ pub fn encode(asm: &mut Assembler, value: &DataType) -> Result<(), RtcmError> {
         }
     }
     //encode satellite length
+    if sat_num > 63 {
+        return Err(RtcmError::OutOfRange);
+    }
     asm.put::<U8>(sat_num, 6)?;
 
     for s in 0..=63u8 {
